@@ -51,7 +51,7 @@ PROPS = {
         "parts": [{"engine": "push", "test": "TestProp_C16_Policy", "quick": 480000, "thorough": 2400000, "shards": {"quick": 8, "thorough": 16}},
                   {"engine": "push", "test": "TestProp_C16_Deliver", "quick": 240000, "thorough": 1200000, "shards": {"quick": 8, "thorough": 16}},
                   {"engine": "push", "test": "TestProp_C16_FuzzShape", "quick": 120000, "thorough": 600000, "shards": {"quick": 4, "thorough": 16}},
-                  {"engine": "push", "test": "Fuzz_C16", "quick": 1, "thorough": 1, "native": True, "shards": {"quick": 1, "thorough": 1}}],
+                  {"engine": "push", "test": "Fuzz_C16", "quick": 1, "thorough": 1, "native": True, "shards": {"quick": 1, "thorough": 1}, "fuzz_seconds": {"thorough": 120}}],
         "guards": ["allowed-delivery", "allowed", "denied", "redirect-followed", "nt:denied-at-later-hop", "nt:address-decides", "nt:deny-allow-overlap"],
     },
     "C17": {
